@@ -31,6 +31,11 @@ FLAVOURS = ["serial", "tcp", "aserial", "atcp", "mqtt", "amqtt"]
 def gen(rng, tier, index):
     cfg = netgen.base_cfg(rng, FLAVOURS, persistence=["pickle"])
     cfg["force_dirty"] = True
+    if rng.random() < 0.25:
+        # "saving" as the application sees it: the library decides by its own not-saved mark whether stop() writes at all
+        # (the other runs set the mark by hand so that serialisation is judged on its own)
+        cfg["force_dirty"] = False
+        cfg["roundtrip_view"] = True
     if rng.random() < 0.3:
         # the order in which the loop, its executor threads (load, scheduled save) and the timer thread get to run at
         # start-up and around a save is the scheduler's call, not always "first come first served"
@@ -60,7 +65,12 @@ def gen(rng, tier, index):
     ops[pos:pos] = edge
     ops.append(["restart"])
     ops.extend(netgen.make_ops(rng, cfg["version"], rng.randint(2, 8), WEIGHTS, nodes=(1, 2)))
-    ops.append(["restart"])
+    if rng.random() < 0.25:
+        # the network keeps talking while the gateway stops: a presentation arrives at the moment the final save has been
+        # written - if the gateway still accepts it then, it is part of the state it stopped with
+        ops.append(["restart", {"late_line": f"{rng.choice([88, 89])};255;0;0;17;{rng.choice(['2.0', '1.5', 'x'])}"}])
+    else:
+        ops.append(["restart"])
     ops.extend(netgen.make_ops(rng, cfg["version"], rng.randint(1, 4), dict(WEIGHTS, req=30, value=20), nodes=(1, 1)))
     return {"cfg": cfg, "ops": ops}
 
